@@ -21,7 +21,7 @@ RENDER_C = "compiler/bitproto/renderer/impls/c/renderer_c.py"
 
 # variant -> (optimize, --endian, big-endian target?, property tags)
 VARIANTS = {
-    "std[le]": (False, "both", False, ["C03", "C07", "C12", "C14"]),
+    "std[le]": (False, "both", False, ["C03", "C07", "C12", "C14", "C16"]),
     "std[be]": (False, "both", True, ["C06", "C14"]),
     "opt[both,le]": (True, "both", False, ["C04", "C07", "C14"]),
     "opt[both,be]": (True, "both", True, ["C04", "C06", "C14"]),
@@ -77,8 +77,13 @@ def _mk(u: family.Unit, variant: str):
                     if only and not only.startswith("%s/%s/" % (pid, mname)):
                         continue
                     E.proof_id = "%s/%s" % (pid, mname)
+                    E.cur_props = [p for p in props if p != "C16"]
                     genc.run_encode(E, prog, msg, big)
                     genc.run_decode(E, prog, msg, big)
+                    if "C16" in props:
+                        E.cur_props = ["C16"]
+                        genc.run_json(E, prog, msg)
+                        E.cur_props = None
                 E.proof_id = pid
             E.explore(body)
             res.obls, res.paths = E.obls, E.completed_paths
@@ -104,13 +109,13 @@ _quick = set(family.kind_tags("quick"))
 for _t in family.kind_tags("thorough"):
     _u = family.leaf_unit(_t)
     _u.tier = "quick" if _t in _quick else "thorough"
-    _u.props_c = ["C03", "C04", "C06", "C07", "C14"]
+    _u.props_c = ["C03", "C04", "C06", "C07", "C14", "C16"]
     for _v in VARIANTS:
         _mk(_u, _v)
 for _u in family.composite_units():
     if _u.name == "composite:enum-default-nonzero":
         continue        # a Python-only finding (C decodes into zeroed storage)
-    _u.props_c = ["C03", "C04", "C06", "C07", "C12"]
+    _u.props_c = ["C03", "C04", "C06", "C07", "C12", "C16"]
     for _v in VARIANTS:
         if VARIANTS[_v][0] and "traditional" not in _u.tags and "traditional-part" not in _u.tags:
             continue
